@@ -52,6 +52,12 @@ CHECKS = {
  'C20': ('exploration', 'parse-back of build_task_diagram output compared with an independent traversal of the generated graph; cross-interpreter digest comparison',
          'Held on every explored graph: one class block per reachable type with all fields and run signature, one arrow per (dependent type, parameter, dependency type) with the right "many" flag, deterministic output.',
          'Per-arrow reading of "many"; block/arrow order not asserted.', '4 C20'),
+ 'C12': ('fault_enumeration', 'single-fault exception injection at every executed line of the save path (sys.monitoring failpoint), every storage open/write/flush/close, unpicklable results; post-state oracle reported => loadable',
+         'Held for every enumerated fault point x cache format x first/overwrite x shape x victim (serial caller, fork worker): the task is reported failed and its entry is either not reported or loads the old/new value; bystander entry intact.',
+         'Line and write-call granularity; storage faults raised by a LocalStorage subclass.', '4 C12'),
+ 'C13': ('fault_enumeration', 'SIGKILL/SIGTERM of the saving process at every executed line of the save path and every write-call boundary / mid-write split (flushed or not); verdict by a process that never ran the save; file-system signature classifier',
+         'For every enumerated kill point the verdict (not reported | loads old/new | poisoned) is computed; poisoned outcomes whose post-kill signature shows an incomplete entry are the open known finding (labtech has no commit protocol); any other bad outcome is a violation.',
+         'Line / write-call granularity; a forked copy of the harness stands in for the serial caller (fresh interpreter on a sample).', '4 C13'),
  'C17': ('exploration', 'holders-model oracle over remove_results calls + probes of the real runner after each release, at each submit and at close()',
          'Held on every explored trace: nothing released while a direct dependent is unfinished, everything released right after its last dependent finished, requested values captured before release, nothing retrievable at close() after a normal return.',
          'Runner.get_result raising KeyError <=> no in-memory result.', '4 C17'),
